@@ -686,7 +686,7 @@ func oneTable(seed int64) tableResult {
 }
 
 func Run(args []string) {
-	rep := vh.NewReport(command, "random type tables as in sem-types (4 named types of depth<=2, root of depth<=3, recursive references, nullable) where every second object carries additionalProperties in one of the modes any/object/array/string/integer/float/boolean/null/@type; JSight text -> real AddType/Check/Validate, same IR as S-expressions -> Lean VA.validateT; 12 documents per table: 5 sampled from the schema (an extra member \"e\" of the additional type every second time), 5 sampled then mutated, 2 random; tables refused by Check are skipped and counted; nontrivial = an object with additionalProperties is reachable from the root; a difference on a table where a non-nullable reference position whose names all end in a cycle of pure references (@a = @a: no alternative at all) is reachable from the root carries the class K-C09-cycle")
+	rep := vh.NewReport(command, "random type tables as in sem-types (4 named types of depth<=2, root of depth<=3, recursive references, nullable) where every second object carries additionalProperties in one of the modes any/object/array/string/integer/float/boolean/null/@type; JSight text -> real AddType/Check/Validate, same IR as S-expressions -> Lean VA.validateT; 12 documents per table: 5 sampled from the schema (an extra member \"e\" of the additional type every second time), 5 sampled then mutated, 2 random; tables refused by Check are skipped and counted; nontrivial = an object with additionalProperties is reachable from the root; document string scalars are drawn every second time from a pool of 32 strings whose content looks like another JSON kind (\"1.5\", \"a.b\", \"true\", \"null\", \"{}\", \"1e5\", \"\", \" \", the same with \\u escapes), also as the value of the extra member under every additionalProperties mode one time in four (modes incl. the boolean forms additionalProperties: true / false); a case whose document holds such a string is validated 8 times and every repeat must give the model verdict (UNSTABLE otherwise); a difference on a table where a non-nullable reference position whose names all end in a cycle of pure references (@a = @a: no alternative at all) is reachable from the root carries the class K-C09-cycle")
 	r := vh.NewRand(salt)
 	nTables := vh.Pick(3000, 100000)
 	const batch = 4000
